@@ -18,7 +18,7 @@ LEVEL = 'exploration'
 RULE = ('1-5 chatty tasks (independent, chains, fan-in) x backends {fork, spawn sampled; serial for logger records} x max_workers x '
         'per-task scripts: interleavings of logger.info/warning/error(token), print(token), print(token, flush=True), '
         'sys.stderr.write(token) without newline, print(token, file=stderr), explicit flush of both streams repeated 0-3 times, '
-        'whitespace-only prints, bursts of 120-900 logger records, logger calls with lazily formatted unpicklable arguments, and tasks that raise after emitting; every token is unique (<task>:<stream>:<seq>). Gated variants (fork) let the schedule choose '
+        'whitespace-only prints, bursts of 120-2600 logger records, logger calls with lazily formatted unpicklable arguments, and tasks that raise after emitting; every token is unique (<task>:<stream>:<seq>). Gated variants (fork) let the schedule choose '
         'which task finishes in the last polling round; single-task runs are always included. Oracle: a handler attached to '
         'labtech.logger in the caller records (level, message); at the instant run_tasks returns every token must occur exactly '
         'once over all recorded messages, on the expected stream/level (Captured STDOUT -> INFO, Captured STDERR -> ERROR, logger '
@@ -184,7 +184,7 @@ def chat_spec(draw, backend: str, gated: bool):
             else:
                 script.append(['ws'])
         if draw(st.integers(0, 5)) == 0:
-            script.insert(draw(st.integers(0, len(script))), ['burst', draw(st.sampled_from([120, 450, 900])), [name, 'burst']])
+            script.insert(draw(st.integers(0, len(script))), ['burst', draw(st.sampled_from([120, 450, 900, 2600])), [name, 'burst']])
         if draw(st.integers(0, 3)) == 0:
             script.append(['raise'])       # the task fails after emitting: what it emitted must still be delivered
         deps = sorted(set(draw(st.lists(st.integers(0, i - 1), max_size=2)))) if i else []
